@@ -5,6 +5,7 @@ import (
 	"go/token"
 	"go/types"
 	"sort"
+	"strconv"
 	"strings"
 
 	"golang.org/x/tools/go/ssa"
@@ -77,6 +78,8 @@ func isRefType(t types.Type) bool {
 func C01(ctx *core.Ctx, r *core.Report) {
 	r.Explanation = "Structure of the expansion algorithm, decided on all paths: every clone() re-allocates each reference-typed field of its struct or the field is in a frozen table of fields that are shared on purpose (with the reason why nothing writes through them after parse) — so copies of a grouping are independent; every field a uses, refine or augment statement stores is read by the expansion; the phases run in the order includes ≺ imports ≺ own uses ≺ augments ≺ deviations and, inside a uses, copy ≺ refine ≺ uses-augment ≺ end of the recursion guard; the recursion guard is set before and cleared after the recursive expansion; config is inherited from the parent when unset and config true under config false is an error. Not decided: that the expanded tree equals the inline tree, scoping of names across submodules/imports, order of augments from several modules."
 	c01CloneIndependence(ctx, r, false)
+	c01NoWriteThroughShared(ctx, r)
+	c01RecursionGuardByIdentity(ctx, r)
 	c01DirectiveCoverage(ctx, r)
 	c01PhaseOrder(ctx, r)
 	c01RecursionGuard(ctx, r)
@@ -443,6 +446,9 @@ func c01ConfigInheritance(ctx *core.Ctx, r *core.Report) {
 func C02(ctx *core.Ctx, r *core.Report) {
 	r.Explanation = "Structure of type compilation, decided on all paths: every clone() of a typed node gives the copy its own *Type, so the early return of compileType for an already compiled type cannot bypass another leaf's inheritance; on the typedef branch compileType mixes the typedef's restrictions in, inherits the default only when the leaf has none and the typedef has one, inherits units only when the leaf has none; every successful return of compileType has assigned the type's delegate (so Resolve() cannot panic); every restriction field a type statement stores is read from the base type by Type.mixin. Not decided: that the derived restriction set is the RFC one (mixin replaces patterns instead of accumulating them), enum/bit numbering, leafref path resolution, identity closure."
 	c01CloneIndependence(ctx, r, true)
+	c02AppendOwnSlice(ctx, r)
+	c02CloneTypeUnconditional(ctx, r)
+	c02LookupScope(ctx, r)
 	c02Inheritance(ctx, r)
 	c02MixinCoverage(ctx, r)
 	c02WhenPerNode(ctx, r)
@@ -660,4 +666,332 @@ func c02WhenPerNode(ctx *core.Ctx, r *core.Report) {
 	}
 	r.Ob("when-per-node", "meta.resolver.cloneDefs", ctx.Pos(cd.Pos()), ok,
 		"the single *When of a uses statement is handed to every copied node; setWhen re-parents it each time, so all copies share one when whose parent is the last node")
+}
+
+// c01NoWriteThroughShared: the fields that clone() leaves shared may be
+// replaced per node but never written through: no store in package meta goes
+// through the pointer held in such a field (`*m.configPtr = c`), updates a map
+// held in it after parse, or assigns an element of a slice held in it.
+func c01NoWriteThroughShared(ctx *core.Ctx, r *core.Report) {
+	metaPkg := ctx.TPkg("meta")
+	cloned := map[*types.Named]bool{}
+	for _, f := range cloneFuncs(ctx) {
+		if n := core.NamedOf(f.Signature.Recv().Type()); n != nil {
+			if _, skip := c01NeverCloned[n.Obj().Name()]; !skip {
+				cloned[n] = true
+			}
+		}
+	}
+	// a function runs after parse when some caller of it is neither the
+	// parser nor meta's Builder
+	afterParse := func(f *ssa.Function) bool {
+		node := ctx.CG().Nodes[f]
+		if node == nil {
+			return true
+		}
+		for _, e := range node.In {
+			c := e.Caller.Func
+			if core.FnPkgPath(c) == core.Full("parser") {
+				continue
+			}
+			if core.FnPkgPath(c) == core.Full("meta") && strings.HasSuffix(ctx.File(c.Pos()), "builder.go") {
+				continue
+			}
+			return true
+		}
+		return false
+	}
+	n := 0
+	for _, f := range ctx.RepoFuncs() {
+		if core.FnPkgPath(f) != core.Full("meta") || f.Name() == "clone" {
+			continue
+		}
+		core.Instrs(f, func(_ *ssa.BasicBlock, in ssa.Instruction) {
+			var through ssa.Value
+			kind := ""
+			switch x := in.(type) {
+			case *ssa.Store:
+				switch a := x.Addr.(type) {
+				case *ssa.UnOp: // *ptrField = v
+					through, kind = a, "store through the pointer"
+				case *ssa.IndexAddr: // sliceField[i] = v
+					through, kind = a.X, "element store into the slice"
+				}
+			case *ssa.MapUpdate:
+				// maps filled while parsing are fine; only post-parse updates count
+				if afterParse(f) {
+					through, kind = x.Map, "map update after parse on the map"
+				}
+			}
+			if through == nil {
+				return
+			}
+			u, ok := through.(*ssa.UnOp)
+			if !ok || u.Op != token.MUL {
+				return
+			}
+			fa, ok := u.X.(*ssa.FieldAddr)
+			if !ok {
+				return
+			}
+			named := core.NamedOf(fa.X.Type())
+			if named == nil || named.Obj().Pkg() != metaPkg || !cloned[named] {
+				return
+			}
+			st := named.Underlying().(*types.Struct)
+			fld := st.Field(fa.Field).Name()
+			if _, shared := c01SharedOK[fld]; !shared {
+				return // re-allocated by clone: each copy has its own
+			}
+			if fld == "parent" || fld == "originalParent" {
+				return
+			}
+			if reallocatedBefore(f, fa, in) {
+				return // the field was given fresh storage earlier in this function
+			}
+			n++
+			key := core.FnName(f) + "→" + named.Obj().Name() + "." + fld
+			if reason, ok := c01WriteThroughOK[key]; ok {
+				r.Ob("no-write-through-shared", key, ctx.Pos(in.Pos()), true, "triaged: "+reason)
+				return
+			}
+			r.Ob("no-write-through-shared", key, ctx.Pos(in.Pos()), false,
+				kind+" held in field "+fld+", which clone() shares between the copies of a grouping: the write shows up in every other use of the grouping (and in the template)")
+		})
+	}
+	r.Count("write-through-shared sites", n)
+}
+
+var c01WriteThroughOK = map[string]string{}
+
+// c02AppendOwnSlice: an append whose result is stored in a field of one object
+// must extend a slice of that same object (or a fresh one): appending onto
+// another object's slice can write into that slice's spare capacity, which
+// every other holder of it sees.
+func c02AppendOwnSlice(ctx *core.Ctx, r *core.Report) {
+	n := 0
+	for _, f := range ctx.RepoFuncs() {
+		if core.FnPkgPath(f) != core.Full("meta") {
+			continue
+		}
+		core.Instrs(f, func(_ *ssa.BasicBlock, in ssa.Instruction) {
+			c, ok := in.(*ssa.Call)
+			if !ok {
+				return
+			}
+			bi, ok := c.Common().Value.(*ssa.Builtin)
+			if !ok || bi.Name() != "append" || len(c.Common().Args) < 1 {
+				return
+			}
+			first := c.Common().Args[0]
+			fu, ok := first.(*ssa.UnOp)
+			if !ok {
+				return
+			}
+			ffa, ok := fu.X.(*ssa.FieldAddr)
+			if !ok {
+				return
+			}
+			for _, ref := range *c.Referrers() {
+				st, ok := ref.(*ssa.Store)
+				if !ok {
+					continue
+				}
+				dfa, ok := st.Addr.(*ssa.FieldAddr)
+				if !ok {
+					continue
+				}
+				n++
+				same := sameObject(dfa.X, ffa.X) && dfa.Field == ffa.Field
+				r.Ob("append-own-slice", core.FnName(f)+"/"+valueSig(dfa), ctx.Pos(c.Pos()), same,
+					"the result of appending onto "+valueSig(ffa)+" is stored in "+valueSig(dfa)+": when the first slice has spare capacity the append writes into storage that other holders of it (a shared typedef's type, another leaf) also see")
+			}
+		})
+	}
+	r.Floor("append-own-slice", n, 20)
+}
+
+// reallocatedBefore: a store of a fresh make()/literal into the same field of
+// the same object dominates the instruction.
+func reallocatedBefore(f *ssa.Function, fa *ssa.FieldAddr, at ssa.Instruction) bool {
+	found := false
+	core.Instrs(f, func(_ *ssa.BasicBlock, in ssa.Instruction) {
+		st, ok := in.(*ssa.Store)
+		if !ok {
+			return
+		}
+		a, ok := st.Addr.(*ssa.FieldAddr)
+		if !ok || a.Field != fa.Field || !sameObject(a.X, fa.X) {
+			return
+		}
+		switch st.Val.(type) {
+		case *ssa.MakeSlice, *ssa.MakeMap, *ssa.Alloc:
+			if instrDominates(in, at) {
+				found = true
+			}
+		}
+	})
+	return found
+}
+
+// sameObject: the two values denote the same object: identical, or the same
+// type assertion of the same value.
+func sameObject(a, b ssa.Value) bool {
+	if a == b {
+		return true
+	}
+	ta, ok1 := a.(*ssa.TypeAssert)
+	tb, ok2 := b.(*ssa.TypeAssert)
+	if ok1 && ok2 {
+		return ta.X == tb.X && types.Identical(ta.AssertedType, tb.AssertedType)
+	}
+	return false
+}
+
+// c02CloneTypeUnconditional: every clone() of a definition that carries a type
+// gives the copy its own *Type whenever the template has one: the store of the
+// fresh Type into copy.dtype is controlled by nothing but `m.dtype != nil`.
+// (compileType writes the inherited default/units/format into the Type; a copy
+// that keeps the template's Type makes one leaf's inheritance visible in all.)
+func c02CloneTypeUnconditional(ctx *core.Ctx, r *core.Report) {
+	n := 0
+	for _, f := range cloneFuncs(ctx) {
+		named := core.NamedOf(f.Signature.Recv().Type())
+		if named == nil {
+			continue
+		}
+		st, ok := named.Underlying().(*types.Struct)
+		if !ok {
+			continue
+		}
+		idx := -1
+		for i := 0; i < st.NumFields(); i++ {
+			if st.Field(i).Name() == "dtype" {
+				idx = i
+			}
+		}
+		if idx < 0 {
+			continue
+		}
+		n++
+		key := "meta." + named.Obj().Name() + ".clone/dtype"
+		var store *ssa.Store
+		core.Instrs(f, func(_ *ssa.BasicBlock, in ssa.Instruction) {
+			if s, ok := in.(*ssa.Store); ok {
+				if fa, ok := s.Addr.(*ssa.FieldAddr); ok && fa.Field == idx && core.NamedOf(fa.X.Type()) == named {
+					if _, fresh := s.Val.(*ssa.Alloc); fresh {
+						store = s
+					}
+				}
+			}
+		})
+		if store == nil {
+			r.Ob("clone-type-unconditional", key, ctx.Pos(f.Pos()), false, "clone() does not give the copy a Type of its own")
+			continue
+		}
+		bad := ""
+		for _, pc := range core.PathConds(store.Block()) {
+			if !isNilTestOfField(pc.V, f.Params[0], idx) {
+				bad = "the copy gets its own Type only under a further condition (" + ctx.Pos(pc.If.Pos()) + "): on the other branch it keeps the template's Type, which every other copy compiles into"
+			}
+		}
+		r.Ob("clone-type-unconditional", key, ctx.Pos(store.Pos()), bad == "", bad)
+	}
+	r.Floor("clone-type-unconditional", n, 2)
+}
+
+// isNilTestOfField: v is `recv.field != nil` / `== nil`.
+func isNilTestOfField(v ssa.Value, recv *ssa.Parameter, field int) bool {
+	b, ok := v.(*ssa.BinOp)
+	if !ok || (b.Op != token.NEQ && b.Op != token.EQL) {
+		return false
+	}
+	x, y := b.X, b.Y
+	if core.IsNilConst(x) {
+		x, y = y, x
+	}
+	if !core.IsNilConst(y) {
+		return false
+	}
+	u, ok := x.(*ssa.UnOp)
+	if !ok {
+		return false
+	}
+	fa, ok := u.X.(*ssa.FieldAddr)
+	return ok && fa.Field == field && core.IsParam(fa.X, recv)
+}
+
+// c02LookupScope: a prefixed name is resolved relative to the definition it is
+// written in: the scope handed to findModuleAndIsExternal never derives from
+// the result of an earlier lookup (a scope carried from one base/typedef name
+// to the next resolves the second prefix against the first name's module).
+func c02LookupScope(ctx *core.Ctx, r *core.Report) {
+	find := ctx.Fn("meta", "findModuleAndIsExternal")
+	if find == nil {
+		r.Fatalf("anchor meta.findModuleAndIsExternal not found")
+		return
+	}
+	n := 0
+	for _, f := range ctx.RepoFuncs() {
+		if core.FnPkgPath(f) != core.Full("meta") {
+			continue
+		}
+		calls := callsStatic(f, find, false)
+		for i, c := range calls {
+			n++
+			key := core.FnName(f)
+			if i > 0 {
+				key += "#" + strconv.Itoa(i+1)
+			}
+			bad := false
+			for _, other := range calls {
+				if dependsOn(c.Common().Args[0], other.Value(), 0) {
+					bad = true
+				}
+			}
+			r.Ob("lookup-scope", key, ctx.Pos(c.Pos()), !bad,
+				"the scope of this prefix lookup comes from the result of an earlier lookup: the prefix is resolved against the wrong module's imports")
+		}
+	}
+	r.Floor("lookup-scope", n, 4)
+}
+
+// c01RecursionGuardByIdentity: the resolver's in-progress table, which tells a
+// recursive `uses` from a fresh one, is keyed by the grouping itself. Two
+// groupings in different scopes may carry the same name; a table keyed by name
+// (any non-pointer key) takes the second for a recursion of the first and
+// leaves its content unexpanded.
+func c01RecursionGuardByIdentity(ctx *core.Ctx, r *core.Report) {
+	res := ctx.Named("meta", "resolver")
+	exp := ctx.Method("meta", "resolver", "expandUses")
+	if res == nil || exp == nil {
+		r.Fatalf("anchors meta.resolver / resolver.expandUses not found")
+		return
+	}
+	st := res.Underlying().(*types.Struct)
+	n := 0
+	// the map fields of resolver that expandUses both looks up and updates
+	core.Instrs(exp, func(_ *ssa.BasicBlock, in ssa.Instruction) {
+		mu, ok := in.(*ssa.MapUpdate)
+		if !ok {
+			return
+		}
+		u, ok := mu.Map.(*ssa.UnOp)
+		if !ok {
+			return
+		}
+		fa, ok := u.X.(*ssa.FieldAddr)
+		if !ok || core.NamedOf(fa.X.Type()) != res {
+			return
+		}
+		mt, ok := st.Field(fa.Field).Type().Underlying().(*types.Map)
+		if !ok {
+			return
+		}
+		n++
+		_, ptr := mt.Key().Underlying().(*types.Pointer)
+		r.Ob("recursion-guard-by-identity", "meta.resolver."+st.Field(fa.Field).Name(), ctx.Pos(mu.Pos()), ptr,
+			"the in-progress table is keyed by "+mt.Key().String()+", not by the grouping's identity: two groupings of the same name in different scopes are taken for a recursion")
+	})
+	r.Floor("recursion-guard-by-identity", n, 1)
 }
